@@ -31,7 +31,7 @@ def replay_file(path: str) -> int:
 
     data = json.loads(open(path).read())
     case = data["case"]
-    rep = cold_call("sim.c01", "replay_case", case)
+    rep = cold_call("sim.c01", "replay_case", case, hashseed=data.get("hashseed", 12345))
     if case["node"] in rep["violating"]:
         print(f"VIOLATION property={PROP} replay={path}")
         print("  " + jdump({"node": case["node"], "detail": rep["detail"].get(case["node"])})[:1500])
@@ -145,11 +145,11 @@ def run_check(tier: str, seed: int, runs: int | None = None, parallel: int | Non
                 case["targets"] = v["targets"]
             confirms = []
             for t in range(3):
-                rep = engine.cold("sim.c01", "replay_case", case)
+                rep = engine.cold("sim.c01", "replay_case", case, hashseed=engine.slots[i % len(engine.slots)].S.hashseed)
                 confirms.append(case["node"] in rep["violating"])
             if not all(confirms):
                 raise HarnessError(f"C01 violation of run {i} (node {case['node']}) does not replay in cold interpreters: {confirms}")
-            path = write_replay(PROP, seed, f"{i}-{len(viol_lines)}", {"case": case, "violation_key": key, "report": v.get("report"), "family": v.get("family"), "original_rows": v.get("original_rows"), "minimised_rows": len(case["cols"]["p_id"]), "shrink_candidates": v.get("shrink_candidates"), "replay_cmd": f"./check replay replays/{PROP}-{seed}-{i}-{len(viol_lines)}.json"})
+            path = write_replay(PROP, seed, f"{i}-{len(viol_lines)}", {"hashseed": engine.slots[i % len(engine.slots)].S.hashseed, "case": case, "violation_key": key, "report": v.get("report"), "family": v.get("family"), "original_rows": v.get("original_rows"), "minimised_rows": len(case["cols"]["p_id"]), "shrink_candidates": v.get("shrink_candidates"), "replay_cmd": f"./check replay replays/{PROP}-{seed}-{i}-{len(viol_lines)}.json"})
             viol_lines.append(f"VIOLATION property={PROP} replay={path}")
             log(f"  violation: node={case['node']} rows={len(case['cols']['p_id'])} order={case['variant']['order']} detail={jdump((v.get('report') or {}).get('detail', {}).get(case['node']))[:400]}")
             exit_code = EXIT_VIOLATION
